@@ -76,6 +76,11 @@ def solve(pc, goal, axioms, want_model=True):
     if r == z3.sat:
         return "failed", "z3", ms, s.model(), ""
     reason = s.reason_unknown()
+    candidate = None
+    try:
+        candidate = s.model()      # z3's candidate model of an undecided (quantified) query: only believed after a native replay
+    except Exception:  # noqa
+        pass
     # z3 is seed-sensitive on quantified / nonlinear queries: small portfolio of restarts before giving up
     for seed in (1, 2, 3):
         s2 = z3.Solver()
@@ -92,6 +97,23 @@ def solve(pc, goal, axioms, want_model=True):
             return "discharged", f"z3(seed={seed})", int((time.time() - t0) * 1000), None, ""
         if r2 == z3.sat:
             return "failed", f"z3(seed={seed})", int((time.time() - t0) * 1000), s2.model(), ""
+    # quantifier-free core: without the quantified background the query is decidable; unsat there is a proof (fewer
+    # assumptions), sat there is only a *candidate* counter-model (it may violate a dropped axiom) for the native replay
+    from .engine import _has_quantifier
+    s3 = z3.Solver()
+    s3.set("timeout", max(5000, Z3_TIMEOUT_MS // 2))
+    for c in list(pc) + list(axioms):
+        if not _has_quantifier(c):
+            s3.add(c)
+    s3.add(z3.Not(goal))
+    r3 = s3.check()
+    if r3 == z3.unsat:
+        return "discharged", "z3(quantifier-free core)", int((time.time() - t0) * 1000), None, ""
+    if r3 == z3.sat and candidate is None:
+        try:
+            candidate = s3.model()
+        except Exception:  # noqa
+            pass
     # cvc5 on z3's unknowns
     v2 = _cvc5(s)
     ms = int((time.time() - t0) * 1000)
@@ -99,7 +121,7 @@ def solve(pc, goal, axioms, want_model=True):
         return "discharged", "cvc5", ms, None, ""
     if v2 == "sat":
         return "failed", "cvc5", ms, None, "cvc5 sat (no model extracted)"
-    return "unknown", "z3+cvc5", ms, None, f"z3: {reason}; cvc5: {v2}"
+    return "unknown", "z3+cvc5", ms, candidate, f"z3: {reason}; cvc5: {v2}"
 
 
 def _cvc5(solver):
@@ -194,7 +216,20 @@ def run_unit(unit):
                   "path": "/".join(trace[-12:]), "tags": list(tags)}
             if reason:
                 ob["reason"] = reason
-            if verdict == "failed":
+            if verdict == "unknown" and model is not None:
+                # candidate counter-model of an undecided query: it counts only if it reproduces on the real code
+                try:
+                    rp = unit.replay(ctx, model, label)
+                except Exception as e:  # noqa
+                    rp = None
+                    ob["replay_error"] = f"{type(e).__name__}: {e}"
+                if rp is not None and rp.get("reproduced"):
+                    verdict = ob["verdict"] = "failed"
+                    ob["solver"] = solver + " (candidate model, confirmed by native replay)"
+                    ob["replay"] = rp
+                    ob["goal"] = str(z3.simplify(goal))[:400]
+                model = None
+            if verdict == "failed" and "replay" not in ob:
                 ob["goal"] = str(z3.simplify(goal))[:400]
                 if model is not None:
                     try:
